@@ -68,6 +68,12 @@ def playback(ws, h, test_name, test_src, logfile):
     return ran, failed and not passed, panic, out[-3000:]
 
 
+def _save(rec, path):
+    os.makedirs(os.path.dirname(path), exist_ok=True)
+    with open(path, "w") as f:
+        json.dump(rec, f, indent=1)
+
+
 def confirm_violation(ws, h, logfile):
     from vcheck import kani_base
     d = os.path.join(REPLAY_DIR, h.prop)
@@ -79,7 +85,7 @@ def confirm_violation(ws, h, logfile):
            "created": time.strftime("%F %T")}
     if _done["n"] >= MAX_REPLAYS:
         rec["native"] = "not replayed (replay budget of this run used up by earlier harnesses)"
-        json.dump(rec, open(path, "w"), indent=1)
+        _save(rec, path)
         return path, False, "not replayed: replay budget used"
     _done["n"] += 1
     cmd = kani_base(ws, h.crate) + ["--exact", "--harness", h.pretty or h.name, "-Z", "concrete-playback", "--concrete-playback=print",
@@ -90,7 +96,7 @@ def confirm_violation(ws, h, logfile):
     tests = extract_tests(out)
     if not tests:
         rec["native"] = "no concrete playback test was produced"
-        json.dump(rec, open(path, "w"), indent=1)
+        _save(rec, path)
         return path, False, "no concrete playback test produced"
     note = "native run of the counterexample did not fail"
     for test_name, test_src, what in tests[:3]:
@@ -98,7 +104,7 @@ def confirm_violation(ws, h, logfile):
         rec["playback_test"] = test_src
         rec["checked"] = what
         rec["native"] = {"ran": ran, "reproduced": failed, "panic": panic, "profile": "dev"}
-        json.dump(rec, open(path, "w"), indent=1)
+        _save(rec, path)
         if not ran:
             return path, False, "native replay did not build/run"
         if failed:
